@@ -17,12 +17,13 @@ open EchoVerif EchoVerif.Graph EchoVerif.Generated EchoVerif.Guard SMap
 /-- **guard_sound.** If the enforced run of an item completes without violation then: every guarded
     read of the program (including the reads of conditions) went through a declared key, the
     executor did not panic, the delta is exactly what the program emits on the pre-state, and every
-    emitted op `o` has `targets o ⊆ declared writes`, `warp o = guard warp`, and is an instance op
-    only under a system guard — for every guard, store and program. -/
+    emitted op `o` has `targets o ⊆ declared writes`, `warp o = guard warp`, is an instance op
+    only under a system guard, and the previous source of an edge it moves in the pre-state store is
+    a declared node write — for every guard, store and program. -/
 theorem guard_sound (g : Guard.Guard) (st : Store) (prog : List Instr) (ops : List Op)
     (h : runItem g st prog = .ok ops) :
     (∀ i ∈ prog, ∀ r ∈ i.reads, ReadDeclared g r) ∧ (∀ i ∈ prog, i.isPanic = false) ∧
-    ops = emitted st prog ∧ (∀ o ∈ ops, OpWithin g o) := by
+    ops = emitted st prog ∧ (∀ o ∈ ops, OpWithinIn g st o) := by
   simp only [runItem] at h
   cases hx : exec g st prog [] with
   | mk ops' halt =>
@@ -30,11 +31,11 @@ theorem guard_sound (g : Guard.Guard) (st : Store) (prog : List Instr) (ops : Li
     simp only at h
     cases halt with
     | some hl =>
-      cases hfb : firstBadOp g ops' with
+      cases hfb : firstBadOp g st ops' with
       | none => rw [hfb] at h; cases hl <;> cases h
       | some v => rw [hfb] at h; cases hl <;> cases h
     | none =>
-      cases hfb : firstBadOp g ops' with
+      cases hfb : firstBadOp g st ops' with
       | some v => rw [hfb] at h; cases h
       | none =>
         rw [hfb] at h
@@ -42,27 +43,27 @@ theorem guard_sound (g : Guard.Guard) (st : Store) (prog : List Instr) (ops : Li
         obtain ⟨h1, h2, h3⟩ := exec_complete prog [] ops hx
         refine ⟨?_, h2, by simpa using h3, ?_⟩
         · intro i hi r hr; exact (checkRead_none_iff g r).1 (h1 i hi r hr)
-        · intro o ho; exact (checkOp_none_iff g o).1 ((firstBadOp_none_iff g ops).1 hfb o ho)
+        · intro o ho; exact (checkOpIn_none_iff g st o).1 ((firstBadOp_none_iff g st ops).1 hfb o ho)
 
 /-- **guard_complete_for_honest.** A program whose reads are all declared, whose emitted ops (on
     this pre-state) all stay inside the declared writes, and which does not panic, is never
     flagged: the item completes with exactly its emitted ops. -/
 theorem guard_complete_for_honest (g : Guard.Guard) (st : Store) (prog : List Instr)
     (hr : ∀ i ∈ prog, ∀ r ∈ i.reads, ReadDeclared g r) (hp : ∀ i ∈ prog, i.isPanic = false)
-    (hw : ∀ o ∈ emitted st prog, OpWithin g o) :
+    (hw : ∀ o ∈ emitted st prog, OpWithinIn g st o) :
     runItem g st prog = .ok (emitted st prog) := by
   have hx := exec_honest (g := g) (st := st) prog []
     (fun i hi r hr' => (checkRead_none_iff g r).2 (hr i hi r hr')) hp
-  have hfb : firstBadOp g (emitted st prog) = none :=
-    (firstBadOp_none_iff g _).2 (fun o ho => (checkOp_none_iff g o).2 (hw o ho))
+  have hfb : firstBadOp g st (emitted st prog) = none :=
+    (firstBadOp_none_iff g st _).2 (fun o ho => (checkOpIn_none_iff g st o).2 (hw o ho))
   simp only [runItem, hx, List.nil_append, hfb]
 
 /-- **violation_detected.** Conversely, any undeclared read, any emitted op outside the
     declaration (cross-warp, instance op without system rights, undeclared node / edge / attachment
-    target) or an executor panic makes the item fail. -/
+    target, undeclared previous source of a moved edge) or an executor panic makes the item fail. -/
 theorem violation_detected (g : Guard.Guard) (st : Store) (prog : List Instr)
     (hbad : (∃ i ∈ prog, ∃ r ∈ i.reads, ¬ ReadDeclared g r) ∨ (∃ i ∈ prog, i.isPanic = true) ∨
-            (∃ o ∈ emitted st prog, ¬ OpWithin g o)) :
+            (∃ o ∈ emitted st prog, ¬ OpWithinIn g st o)) :
     (runItem g st prog).isOk = false := by
   cases hr : runItem g st prog with
   | violation v wp => rfl
@@ -108,55 +109,63 @@ def Declared (g : Guard.Guard) : Loc → Prop
   | .natt w i => AttKey.nodeAlpha w i ∈ g.attWrite
   | .eatt w e => AttKey.edgeBeta w e ∈ g.attWrite
 
-/-- **targets_cover_change_partial.** For every state with sorted maps (the representation
-    invariant of `BTreeMap`s), every op OTHER than an `UpsertEdge` that re-parents an existing edge,
-    and every observable location (node record, outgoing adjacency of a node, edge record, node /
-    edge attachment): if applying the op changes the location then the location is covered by the
-    op's attributed write targets (`op_write_targets`), or — for instance-level ops only — lies in
-    the instance the op creates / replaces / deletes.
-    (Full statement `targets_cover_change` = the same without `hre`; it is FALSE: see
-    `targets_miss_reparent`.) -/
-theorem targets_cover_change_partial (s s' : WState) (o : Op) (hs : s.SortedAll)
-    (h : applyOp s o = .ok s') (hre : ¬ Reparents s o) (l : Loc) (hc : Changed s s' l) :
-    covered o l = true := by
+/-- **targets_cover_change.** For every state with sorted maps (the representation invariant of
+    `BTreeMap`s), EVERY op (re-parenting `UpsertEdge`, `OpenPortal` and instance ops included) and
+    every observable location (node record, outgoing adjacency of a node, edge record, node / edge
+    attachment): if applying the op changes the location then the location is attributed to the op
+    by enforcement on that state — `op_write_targets`, or `moved_edge_previous_source` (the old
+    source's adjacency of a moved edge), or, for instance-level ops only, it lies in the instance
+    the op creates / replaces / deletes. -/
+theorem targets_cover_change (s s' : WState) (o : Op) (hs : s.SortedAll)
+    (h : applyOp s o = .ok s') (l : Loc) (hc : Changed s s' l) :
+    coveredIn s o l = true := by
+  have skel : o.isSkel = true → coveredIn s o l = true := by
+    intro hsk
+    rcases cover_skel_in hsk hs h l hc with h1 | h1
+    · simp only [coveredIn, covered, h1, Bool.true_or]
+    · simp only [coveredIn, h1, Bool.or_true]
   cases o with
-  | openPortal key cw cr init => exact cover_openPortal h l hc
+  | openPortal key cw cr init => simp only [coveredIn, cover_openPortal h l hc, Bool.true_or]
   | upsertInstance inst => exact absurd hc (cover_upsertInstance h l)
   | deleteInstance w0 =>
     have := cover_deleteInstance hs h l hc
-    simp [covered, instWarps, opTargets, newWarp, mergeTargetWarp, this]
-  | upsertNode w i ty => simp only [covered, cover_skel rfl hs h hre l hc, Bool.true_or]
-  | deleteNode w i => simp only [covered, cover_skel rfl hs h hre l hc, Bool.true_or]
-  | upsertEdge w id src dst ty => simp only [covered, cover_skel rfl hs h hre l hc, Bool.true_or]
-  | deleteEdge w src id => simp only [covered, cover_skel rfl hs h hre l hc, Bool.true_or]
-  | setAtt key v => simp only [covered, cover_skel rfl hs h hre l hc, Bool.true_or]
+    simp [coveredIn, covered, instWarps, opTargets, newWarp, mergeTargetWarp, this]
+  | upsertNode w i ty => exact skel rfl
+  | deleteNode w i => exact skel rfl
+  | upsertEdge w id src dst ty => exact skel rfl
+  | deleteEdge w src id => exact skel rfl
+  | setAtt key v => exact skel rfl
 
-/-- The state of the negation witness: warp 1 with nodes 1, 2, 3 and edge 9 : 2 → 1. -/
+/-- The state of the witness: warp 1 with nodes 1, 2, 3 and edge 9 : 2 → 1. -/
 def witnessState : WState :=
   { stores := [(1, { nodes := [(1, 0), (2, 0), (3, 0)], edges := [(9, { src := 2, dst := 1, ty := 0 })],
                      nodeAtt := [], edgeAtt := [] })],
     instances := [(1, { warp := 1, root := 1, parent := none })] }
 
-/-- **targets_miss_reparent** (negation witness of the full claim, DESIGN §7-D): `UpsertEdge` of
-    edge 9 under the new source 3 succeeds, empties the outgoing adjacency of the OLD source 2, and
-    that location is not covered by the attributed targets (nodes `[3]`, edges `[9]`). -/
-theorem targets_miss_reparent :
+/-- **stateless_targets_miss_reparent** (why the state-dependent target is needed, DESIGN §7-D):
+    `UpsertEdge` of edge 9 under the new source 3 succeeds and empties the outgoing adjacency of the
+    OLD source 2; the stateless table `op_write_targets` alone (nodes `[3]`, edges `[9]`) does not
+    cover that location, `moved_edge_previous_source` does. -/
+theorem stateless_targets_miss_reparent :
     ∃ s', applyOp witnessState (.upsertEdge 1 9 3 1 0) = .ok s' ∧
       Changed witnessState s' (.adj 1 2) ∧ covered (.upsertEdge 1 9 3 1 0) (.adj 1 2) = false ∧
+      coveredIn witnessState (.upsertEdge 1 9 3 1 0) (.adj 1 2) = true ∧
       Reparents witnessState (.upsertEdge 1 9 3 1 0) :=
-  ⟨_, rfl, ⟨9, by decide⟩, by decide, ⟨_, rfl, by decide⟩⟩
+  ⟨_, rfl, ⟨9, by decide⟩, by decide, by decide, ⟨_, rfl, by decide⟩⟩
 
-/-- **accepted_op_changes_only_declared** (the two halves composed): an op that `check_op` accepts
-    and that is not a re-parenting upsert changes only locations the guard declares as writes — or,
-    under a system guard, locations inside the instance an instance-level op targets. -/
-theorem accepted_op_changes_only_declared (g : Guard.Guard) (s s' : WState) (o : Op)
-    (hs : s.SortedAll) (hchk : checkOp g o = none) (h : applyOp s o = .ok s')
-    (hre : ¬ Reparents s o) (l : Loc) (hc : Changed s s' l) :
+/-- **accepted_op_changes_only_declared** (the two halves composed, every op): an op that the
+    enforced executor accepts (`check_op_in` against the pre-state store of the guard's warp)
+    changes only locations the guard declares as writes — or, under a system guard, locations inside
+    the instance an instance-level op targets. -/
+theorem accepted_op_changes_only_declared (g : Guard.Guard) (s s' : WState) (st : Store) (o : Op)
+    (hs : s.SortedAll) (hst : s.store? g.warp = some st) (hchk : checkOpIn g st o = none)
+    (h : applyOp s o = .ok s') (l : Loc) (hc : Changed s s' l) :
     Declared g l ∨ (g.isSystem = true ∧ l.warp ∈ instWarps o) := by
-  have hw := (checkOp_none_iff g o).1 hchk
-  have hcov := targets_cover_change_partial s s' o hs h hre l hc
-  simp only [covered, Bool.or_eq_true] at hcov
-  rcases hcov with hcov | hcov
+  have hwi := (checkOpIn_none_iff g st o).1 hchk
+  have hw := hwi.op
+  have hcov := targets_cover_change s s' o hs h l hc
+  simp only [coveredIn, covered, Bool.or_eq_true] at hcov
+  rcases hcov with (hcov | hcov) | hcov
   · left
     cases l with
     | node w i =>
@@ -184,6 +193,33 @@ theorem accepted_op_changes_only_declared (g : Guard.Guard) (s s' : WState) (o :
     cases hi : (opTargets o).inst with
     | true => rfl
     | false => simp [instWarps, hi] at hcov
+  · left
+    cases l with
+    | adj w n =>
+      simp only [movedAdj] at hcov
+      cases hsw : s.store? w with
+      | none => rw [hsw] at hcov; cases hcov
+      | some st' =>
+        rw [hsw] at hcov
+        simp only [beq_iff_eq] at hcov
+        have hwg : w = g.warp := by
+          cases o with
+          | upsertEdge w' id src dst ty =>
+            have h1 := hw.warp
+            simp only [opTargets, Option.some.injEq] at h1
+            simp only [movedPrev] at hcov
+            by_cases hww : w' = w
+            · rw [← hww]; exact h1
+            · simp [hww] at hcov
+          | _ => simp [movedPrev] at hcov
+        subst hwg
+        rw [hst] at hsw
+        cases hsw
+        exact ⟨rfl, hwi.moved n hcov⟩
+    | node w i => simp [movedAdj] at hcov
+    | edge w i => simp [movedAdj] at hcov
+    | natt w i => simp [movedAdj] at hcov
+    | eatt w i => simp [movedAdj] at hcov
 
 /-- **target_warp_agrees.** The warp the guard compares against its own (`op_warp` of the extracted
     table) is the warp the merge attributes the op to (`extract_target_warp`), for every op; the
